@@ -22,19 +22,23 @@ theorem rt_truncateChanges (m : Nat) : RT cfg (fun _ => True) (truncateChanges m
 theorem rt_editMove (op : LM Bool) : RT cfg (fun _ => True) (editMove S U cfg op) :=
   RT.of_keeps (keeps_inp_editMove S U cfg op)
 
+theorem rt_lowerMark (m : Nat) : RT cfg (fun _ => True) (lowerMark m) :=
+  ⟨fun _ hs _ _ he => by cases he; exact ⟨hs, trivial⟩⟩
+
 theorem rt_completeCircular (hb : BindsI cfg) (start : Nat) (cands : List Text) (mark : Nat) (backup : Text)
     (backupPos : Nat) : ∀ (fuel i : Nat),
     RT cfg (OptI cfg) (completeCircular S U cfg start cands mark backup backupPos fuel i) := by
+  have h0 := fun m => rt_lowerMark cfg m
   have h1 := fun {α : Type} (op : LM α) => rt_lb S U cfg op
   have h2 := rt_getLine cfg
   have h3 := fun m => rt_truncateChanges cfg m
   intro fuel
-  induction fuel with
+  induction fuel generalizing mark with
   | zero => intro i; unfold completeCircular; em_rt
   | succ k ih =>
     intro i
     unfold completeCircular
-    em_rt [ih, h1, h3, RT.bindQ (rt_nextCmd S U cfg hb _ _ _)]
+    em_rt [ih, h0, h1, h3, RT.bindQ (rt_nextCmd S U cfg hb _ _ _)]
 
 theorem rt_completeLine (hb : BindsI cfg) (fuel : Nat) : RT cfg (OptI cfg) (completeLine S U cfg fuel) := by
   have h1 := fun {α : Type} (op : LM α) => rt_lb S U cfg op
@@ -49,15 +53,16 @@ theorem rt_completeLine (hb : BindsI cfg) (fuel : Nat) : RT cfg (OptI cfg) (comp
 theorem rt_searchLoop (hb : BindsI cfg) (mark : Nat) (backup : Text) (backupPos : Nat) :
     ∀ (fuel : Nat) (sb : Text) (hi : Nat) (d : Dir) (succ : Bool),
     RT cfg (OptI cfg) (searchLoop S U cfg mark backup backupPos fuel sb hi d succ) := by
+  have h0 := fun m => rt_lowerMark cfg m
   have h1 := fun {α : Type} (op : LM α) => rt_lb S U cfg op
   have h3 := fun m => rt_truncateChanges cfg m
   intro fuel
-  induction fuel with
+  induction fuel generalizing mark with
   | zero => intro sb hi d succ; unfold searchLoop; em_rt
   | succ k ih =>
     intro sb hi d succ
     unfold searchLoop
-    em_rt [ih, h1, h3, RT.bindQ (rt_nextCmd S U cfg hb _ _ _)]
+    em_rt [ih, h0, h1, h3, RT.bindQ (rt_nextCmd S U cfg hb _ _ _)]
 
 theorem rt_reverseIncrementalSearch (hb : BindsI cfg) (fuel : Nat) :
     RT cfg (OptI cfg) (reverseIncrementalSearch S U cfg fuel) := by
